@@ -40,7 +40,9 @@ class C07(Prop):
     tie_modules = {
         "RxModel.GenTie.TimeSources": ["subscribeon"],          # subscribe_on: one task, no delay; the task subscribes the source
         "RxModel.GenTie.DelaySubscription": ["delaysub"],
-        "RxModel.GenTie.TimeSourcesModel": ["subscribeon", "delaysub"],   # the scheduling events = the calls of TW.subscribeFrom      # delay_subscription: the same task with the configured delay
+        "RxModel.GenTie.TimeSourcesModel": ["subscribeon", "delaysub"],
+        # forward simulations: generated delay / observe_on observers against Stage.onNotif of the chain model
+        "RxModel.GenTie.TimeOpsModel": ["delay", "observeon"],   # the scheduling events = the calls of TW.subscribeFrom      # delay_subscription: the same task with the configured delay
         "RxModel.GenTie.Delay": ["delay"],
         "RxModel.GenTie.DelayThreads": ["delay"],
         "RxModel.GenTie.ObserveOn": ["observeon"],
